@@ -1,6 +1,7 @@
 package props
 
 import (
+	"google.golang.org/grpc/metadata"
 	"context"
 	"fmt"
 	"math"
@@ -210,11 +211,15 @@ type C08E2E struct {
 	Ser       bool   `json:"ser"`
 	Stats     bool   `json:"stats,omitempty"`     // do-nothing stats handlers on both sides
 	Intercept bool   `json:"intercept,omitempty"` // pass-through interceptors on both sides
+	MD        []kit.KV `json:"md,omitempty"`      // the caller's outgoing metadata (api modes)
 }
 
 func genC08E2E(t *rapid.T) C08E2E {
 	c := C08E2E{Kind: rapid.SampledFrom(allKinds).Draw(t, "kind"), Ser: rapid.Bool().Draw(t, "ser"), Stats: rapid.IntRange(0, 3).Draw(t, "stats") == 0, Intercept: rapid.IntRange(0, 2).Draw(t, "intercept") == 0}
 	c.Mode = rapid.SampledFrom([]string{"api", "api", "header"}).Draw(t, "mode")
+	if c.Mode == "api" && rapid.Bool().Draw(t, "with_md") {
+		c.MD = kit.GenMD(t, 4)
+	}
 	if c.Mode == "api" {
 		switch rapid.IntRange(0, 5).Draw(t, "tclass") {
 		case 0:
@@ -291,6 +296,9 @@ func execC08E2E(t *testing.T, c C08E2E) (v Verdict) {
 			_ = l.A.Write(context.Background(), env.Build(1, kit.FullMethod(name), "c0", kit.ServerName))
 		} else {
 			ctx := context.Background()
+			if len(c.MD) > 0 {
+				ctx = metadata.NewOutgoingContext(ctx, kit.MDOf(c.MD))
+			}
 			var cancel context.CancelFunc = func() {}
 			if c.Mode != "api-none" {
 				ctx, cancel = context.WithTimeout(ctx, time.Duration(c.TimeoutUs)*time.Microsecond)
@@ -397,7 +405,7 @@ func execC08E2E(t *testing.T, c C08E2E) (v Verdict) {
 			}
 		}
 	}
-	v.Info = kit.CaseInfo{Labels: []string{"e2e." + label, "kind=" + kit.KindNames[c.Kind], fmt.Sprintf("e2e.intercept=%v", c.Intercept)}, NonTrivial: nt, Key: fmt.Sprintf("%+v", c), Sample: c}
+	v.Info = kit.CaseInfo{Labels: []string{"e2e." + label, "kind=" + kit.KindNames[c.Kind], fmt.Sprintf("e2e.intercept=%v", c.Intercept), fmt.Sprintf("e2e.with_metadata=%v", len(c.MD) > 0)}, NonTrivial: nt, Key: fmt.Sprintf("%+v", c), Sample: c}
 	return
 }
 
